@@ -549,6 +549,19 @@ pub fn areal_strategy() -> impl Strategy<Value = G> {
     )
 }
 
+/// 1 partner in 16 is moved off the board (disjoint envelopes: the shortcut paths of relate / distance)
+fn far_partner(b: G, flags: u32) -> G {
+    if (flags >> 12) & 15 != 0 {
+        return b;
+    }
+    let v = ((flags >> 16) & 63) as i64;
+    let (dx, dy) = (((v % 7) - 3) * 14, (((v / 7) % 7) - 3) * 14);
+    if (dx, dy) == (0, 0) {
+        return b;
+    }
+    b.map_coords(&|c| (c.0 + dx, c.1 + dy))
+}
+
 /// One geometry and several coincidence-biased partners on the same board.
 #[derive(Clone, Debug, Serialize, Deserialize)]
 pub struct Scene {
@@ -576,6 +589,7 @@ pub fn scene_strategy(max_partners: usize) -> impl Strategy<Value = Scene> {
             let mut partners = vec![];
             for rb in &rbs {
                 if let Some(b) = build_geom(rb, g, &pool, Some(&effective_cells(&ra, g))) {
+                    let b = far_partner(b, rb.flags);
                     let b = post(apply_mat(&b, &m));
                     if in_relate_domain(&b) {
                         partners.push(b);
@@ -707,6 +721,7 @@ pub mod bytes {
         for _ in 0..n {
             let rb = raw_geom(u)?;
             if let Some(b) = build_geom(&rb, g, &pool, Some(&effective_cells(&ra, g))) {
+                let b = far_partner(b, rb.flags);
                 let b = post(apply_mat(&b, &m));
                 if in_relate_domain(&b) {
                     partners.push(b);
